@@ -5,7 +5,7 @@
 
 1. extracts the patch (git diff -- src macros) and the demonstration,
 2. confirms: demo fails with the change, passes without; baseline suite passes with the change,
-3. applies the patch to /repo, runs the given checks, restores /repo,
+3. runs the given checks against the worktree (VERIF_REPO=<worktree>; /repo is not touched),
 4. writes /verif/seeded/<name>/{patch.diff, demo.rs, README.md, meta.json}.
 """
 import sys, os, subprocess, json, shutil, time
@@ -46,28 +46,23 @@ rc3, o3 = sh("(cargo nextest run --workspace --no-fail-fast --test-threads 8 --o
 meta["baseline_with_change"] = o3.strip().splitlines()[-3:]
 meta["baseline_passes_with_change"] = ("88 passed" in o3 and "0 failed" not in o3.replace("0 failed", "")) or ("88 tests run: 88 passed" in o3)
 meta["ran"].append("cargo nextest run --workspace --no-fail-fast --offline (with the change, demo removed)")
-# --- run the checks against /repo with the patch applied
-rc, st = sh("git status --porcelain -- src macros", cwd="/repo")
-assert st.strip() == "", "/repo has uncommitted source changes"
-rc, o = sh(f"git apply {out}/patch.diff", cwd="/repo")
-assert rc == 0, o
+# --- run the checks against the worktree itself (VERIF_REPO); /repo is not touched, and the run's evidence and
+# replay files are kept apart from the registered ones (tmp/alt-*)
 results = {}
-try:
-    for c in checks:
-        t0 = time.time()
-        rc, o = sh(f"./check {c}", cwd="/verif", timeout=7200)
-        lines = [l for l in o.splitlines() if l.startswith("VIOLATION") or l.startswith("KNOWN-FINDING") or l.startswith("INCONCLUSIVE")]
-        detail = [l[:400] for l in o.splitlines() if l.startswith("violation:")][:2]
-        results[c] = {"exit": rc, "verdict_lines": lines[:4], "first_violations": detail, "wall_s": round(time.time() - t0, 1)}
-        # keep the replay of the first violation next to the seed
-        for l in lines:
-            if l.startswith("VIOLATION") and "replay=" in l:
-                rp = l.split("replay=")[1].split()[0]
-                if os.path.exists(rp):
-                    shutil.copy(rp, f"{out}/replay_{c}_{os.path.basename(rp)}")
-                break
-finally:
-    sh("git checkout -- .", cwd="/repo")
+env_prefix = f"VERIF_REPO={wt} "
+for c in checks:
+    t0 = time.time()
+    rc, o = sh(env_prefix + f"./check {c}", cwd="/verif", timeout=7200)
+    lines = [l for l in o.splitlines() if l.startswith("VIOLATION") or l.startswith("KNOWN-FINDING") or l.startswith("INCONCLUSIVE")]
+    detail = [l[:400] for l in o.splitlines() if l.startswith("violation:")][:2]
+    results[c] = {"exit": rc, "verdict_lines": lines[:4], "first_violations": detail, "wall_s": round(time.time() - t0, 1)}
+    # keep the replay of the first violation next to the seed
+    for l in lines:
+        if l.startswith("VIOLATION") and "replay=" in l:
+            rp = l.split("replay=")[1].split()[0]
+            if os.path.exists(rp):
+                shutil.copy(rp, f"{out}/replay_{c}_{os.path.basename(rp)}")
+            break
 meta["checks"] = results
 meta["detected_by"] = [c for c, r in results.items() if r["exit"] == 1]
 meta["needs"] = ""
